@@ -544,6 +544,11 @@ func c11RaceSigs(stderr string) []PropFail {
 	var out []PropFail
 	seen := map[string]bool{}
 	for _, rep := range strings.Split(stderr, "WARNING: DATA RACE")[1:] {
+		if strings.Contains(rep, "main.bootEngine") {
+			// one side of the race is the harness's own engine bootstrap (engine.go starts the product's background
+			// loops in its own order): a harness artefact, not a finding
+			continue
+		}
 		frame := "unknown"
 		for _, l := range strings.Split(rep, "\n") {
 			l = strings.TrimSpace(l)
